@@ -160,6 +160,56 @@ def variants(rng, n):
     return out
 
 
+# ---- the order of every name-keyed table is a function of the set of names (Just.Determinism.build)
+
+TABLE_NAMES = ["a", "b", "A", "B", "Z", "z", "_a", "_Z", "a-b", "a_b", "ab", "a1", "a-", "a_", "aB", "b0", "b-a", "ba", "zz", "z9"]
+
+
+def table_case(rng):
+    def pick(k):
+        return rng.sample(TABLE_NAMES, k)
+    recipes = pick(rng.randint(2, 6))
+    variables = pick(rng.randint(2, 5))
+    unexports = ["U" + x.upper().replace("-", "_") for x in pick(rng.randint(2, 4))]
+    unexports = list(dict.fromkeys(unexports))
+    taken = set(recipes)
+    aliases = [x for x in pick(rng.randint(1, 4)) if x not in taken][:3]
+    taken |= set(aliases)
+    modules = [x for x in ["m-a", "m_a", "mA", "ma", "M"] if rng.random() < 0.5 and x not in taken][:3]
+    items = [("recipe", x) for x in recipes] + [("variable", x) for x in variables] + [("unexport", x) for x in unexports] + \
+            [("alias", x) for x in aliases] + [("module", x) for x in modules]
+    rng.shuffle(items)
+    text = ""
+    for k, n in items:
+        if k == "recipe":
+            text += "%s:\n  echo\n\n" % n
+        elif k == "variable":
+            text += "%s := 'v'\n" % n
+        elif k == "unexport":
+            text += "unexport %s\n" % n
+        elif k == "alias":
+            text += "alias %s := %s\n" % (n, recipes[0])
+        else:
+            text += "mod %s 'sub.just'\n" % n
+    return {"text": text, "order": {k: [n for kk, n in items if kk == k] for k in ("recipe", "variable", "unexport", "alias", "module")}}
+
+
+def run_table_case(c):
+    with C.scratch("c20t") as d:
+        open(os.path.join(d, "justfile"), "w").write(c["text"])
+        open(os.path.join(d, "sub.just"), "w").write("s:\n  echo\n")
+        env = dict(C.BASE_ENV, HOME=d)
+        p = subprocess.run([C.JUST, "--dump", "--dump-format", "json"], cwd=d, env=env, stdin=subprocess.DEVNULL, stdout=subprocess.PIPE, stderr=subprocess.PIPE)
+        if p.returncode != 0:
+            return {"error": p.stderr.decode("utf-8", "replace")[-300:]}
+        j = json.loads(p.stdout)      # object_pairs order is the serializer's order
+        q = subprocess.run([C.JUST, "--summary"], cwd=d, env=env, stdin=subprocess.DEVNULL, stdout=subprocess.PIPE, stderr=subprocess.PIPE)
+        v = subprocess.run([C.JUST, "--variables"], cwd=d, env=env, stdin=subprocess.DEVNULL, stdout=subprocess.PIPE, stderr=subprocess.PIPE)
+        return {"recipe": list(j["recipes"].keys()), "variable": list(j["assignments"].keys()), "unexport": list(j["unexports"]),
+                "alias": list(j["aliases"].keys()), "module": list(j["modules"].keys()),
+                "summary": [x for x in q.stdout.decode().split() if "::" not in x], "variables": v.stdout.decode().split()}
+
+
 def run(report):
     tier = report.tier
     just, bt = C.build_just()
@@ -219,15 +269,44 @@ def run(report):
             continue
         if len(samples) < 3 and argv == ["--groups"]:
             samples.append({"program": name, "argv": argv, "stdout": first[1].decode("utf-8", "replace"), "identical_runs": reps})
+    # the order of every table in the dump and the listings: sorted by name, whatever the source order (model: build)
+    drv = C.Driver()
+    ntab = 150 if tier == "quick" else 3000
+    tcases = [table_case(C.case_rng(report.seed, i, "c20-table")) for i in range(ntab)]
+    tres = C.pmap(run_table_case, tcases)
+    kinds = ("recipe", "variable", "unexport", "alias", "module")
+    tmod = drv.pbatch([{"op": "table", "keys": c["order"][k]} for c in tcases for k in kinds], chunk=5000)
+    stats["table_programs"] = ntab
+    stats["tables_compared"] = 0
+    for i, (c, r) in enumerate(zip(tcases, tres)):
+        replay = {"justfile": c["text"], "files": {"sub.just": "s:\n  echo\n"}, "argv": ["--dump", "--dump-format", "json"], "observed": r}
+        if "error" in r:
+            report.failure("c20-table-run", "a valid justfile was rejected: " + r["error"][-150:], replay)
+            continue
+        for kx, k in enumerate(kinds):
+            want = sorted(c["order"][k], key=lambda x: x.encode("utf-8"))     # the statement: a function of the SET of names
+            m = tmod[i * len(kinds) + kx]
+            if "fatal" in m:
+                raise C.BuildError("model driver: " + m["fatal"])
+            stats["tables_compared"] += 1
+            public = [x for x in want if not x.startswith("_")]      # --summary and --variables list the public names
+            if r[k] != want or (k == "recipe" and r["summary"] != public) or (k == "variable" and r["variables"] != public):
+                report.failure("c20-table-order:%s" % k, "the %s table is not shown in name order (it then depends on the order of definition): %s" % (k, r[k]),
+                               dict(replay, expected=want))
+                break
+            if m["order"] != r[k]:
+                report.failure("c20-model-table", "Just.Determinism.build orders the keys differently from the implementation",
+                               dict(replay, correspondence="C20 table order vs Just.Determinism.build", model=m, table=k), no_input=True)
+                break
     if scan_diff and not report.violations:
         report.failure("c20-scan", "hash-based collections in the source differ from the committed classification; repeated runs found no difference",
                        {"correspondence": "HashMap/HashSet scan of /repo/src vs vlib/c20.py CLASSIFICATION", "differences": scan_diff}, no_input=True)
     elif scan_diff:
         stats["scan_diff"] = scan_diff
     report.coverage.update({
-        "evaluations": len(cases) * reps,
+        "evaluations": len(cases) * reps + ntab,
         "distinct_nontrivial": len(distinct),
-        "rule": "justfiles with >=3 members in every collection (recipes, aliases, variables, settings, 4 unexports with per-variant names, recipe and module groups, modules, attributes, parameters) + justfiles with two unstable features / compile errors x %d non-executing command lines (incl. usage and unknown-recipe errors) x %d fresh processes each (hash seeds differ per process); plus a scan of every HashMap/HashSet in non-test source against a committed classification; distinct = distinct (program, command)" % (len(COMMANDS), reps),
+        "rule": "justfiles with >=3 members in every collection (recipes, aliases, variables, settings, 4 unexports with per-variant names, recipe and module groups, modules, attributes, parameters) + justfiles with two unstable features / compile errors x %d non-executing command lines (incl. usage and unknown-recipe errors) x %d fresh processes each (hash seeds differ per process); plus random justfiles whose recipes, variables, unexports, aliases and modules (names chosen to separate byte order from other orders) are written in random order: every table of the dump, --summary and --variables against name order and against Just.Determinism.build; plus a scan of every HashMap/HashSet in non-test source against a committed classification; distinct = distinct (program, command)" % (len(COMMANDS), reps),
         "samples": samples,
         "traces_validated_against_impl": len(cases),
         "stats": stats,
